@@ -129,7 +129,15 @@ impl Expr {
                         "lwrd" => (value as u64 & 0xffff) as i64,
                         "hwrd" => ((value as u64 & 0xffff0000) >> 16) as i64,
                         "page" => ((value as u64 & 0x1f0000) >> 16) as i64,
-                        "exp2" => 1 << value,
+                        "exp2" => {
+                            if value < 0 || value > 63 {
+                                return Err(ExprRunError::ArithmeticError(format!(
+                                    "exp2 argument out of range (0 <= n <= 63): {}",
+                                    value
+                                )));
+                            }
+                            1 << value
+                        }
                         "log2" => {
                             let mut i = 0;
                             let mut value = value as u64;
@@ -210,6 +218,14 @@ impl Expr {
                     BinaryOperator::BitwiseAnd => Ok(left & right),
                     BinaryOperator::BitwiseOr => Ok(left | right),
                     BinaryOperator::BitwiseXor => Ok(left ^ right),
+                    BinaryOperator::ShiftLeft | BinaryOperator::ShiftRight
+                        if right < 0 || right > 63 =>
+                    {
+                        Err(ExprRunError::ArithmeticError(format!(
+                            "Shift amount out of range (0 <= n <= 63): {:?}",
+                            binary.right
+                        )))
+                    }
                     BinaryOperator::ShiftLeft => Ok(left << right),
                     BinaryOperator::ShiftRight => Ok(left >> right),
                     BinaryOperator::LessThan => Ok((left < right) as i64),
